@@ -24,6 +24,8 @@ import GherkinVerif.Spec.RecoverChecks
 import GherkinVerif.Spec.RecoverChecks2
 import GherkinVerif.Spec.Render
 import GherkinVerif.Spec.Render2
+import GherkinVerif.Spec.Render3
+import GherkinVerif.Spec.Render4
 open GV
 
 namespace Driver
@@ -94,6 +96,18 @@ def decSteps : Nat → List (List Nat) → List (List Nat × List Nat × List (L
     let (rows, rest') := decRows (decNat r) rest
     (kw, tx, rows) :: decSteps f rest'
   | _ + 1, _ => []
+
+/-- examples blocks as fields: number of tags (decimal), the tags, keyword, name, number of rows, the rows -/
+def decExamples : Nat → List (List Nat) → List (List (List Nat) × List Nat × List Nat × List (List (List Nat)))
+  | 0, _ => []
+  | _ + 1, [] => []
+  | f + 1, nt :: rest =>
+    let k := decNat nt
+    match rest.drop k with
+    | kw :: nm :: r :: rest2 =>
+      let (rows, rest3) := decRows (decNat r) rest2
+      (rest.take k, kw, nm, rows) :: decExamples f rest3
+    | _ => []
 
 def pairUp : List (List Nat) → List (List Nat × List Nat)
   | a :: b :: r => (a, b) :: pairUp r
@@ -171,6 +185,37 @@ def handle (op : String) (as : List (List Nat)) : J :=
       let m := Spec.MFeature2.ofLists (split0 (arg as 1)) (arg as 2) (arg as 3) (scs2 (as.drop 4))
       .obj [("wf", .bool (Spec.WF2 d m)), ("text", .str (Spec.render2 m)),
             ("expected", (Spec.expectedDoc2 d (arg as 0) m 0).toJ), ("idsAfter", .num (Spec.idsAfter2 m 0))]
+    | _, _ => .obj [("crash", .str (lit "no such dialect"))]
+  | "render3" =>
+    -- as `render2`, with an optional Background (Spec/Render3.lean, Props/C03Roundtrip3.lean): a fifth argument
+    -- `kw 0 name 0 steps…` (empty: no background) precedes the scenarios
+    match MState.init D (arg as 0), findDialect D (arg as 0) with
+    | some _, some d =>
+      let rec scs3 : List (List Nat) → List (List Str × Str × Str × List (Str × Str × List (List Str)))
+        | t :: k :: n :: st :: rest => (split0 t, k, n, decSteps (st.length + 1) (split0 st)) :: scs3 rest
+        | _ => []
+      let bg := match split0 (arg as 4) with
+        | k :: n :: rest => [(k, n, decSteps (rest.length + 1) rest)]
+        | _ => []
+      let m := Spec.MFeature3.ofLists (split0 (arg as 1)) (arg as 2) (arg as 3) bg (scs3 (as.drop 5))
+      .obj [("wf", .bool (Spec.WF3 d m)), ("text", .str (Spec.render3 m)),
+            ("expected", (Spec.expectedDoc3 d (arg as 0) m 0).toJ), ("idsAfter", .num (Spec.idsAfter3 m 0))]
+    | _, _ => .obj [("crash", .str (lit "no such dialect"))]
+  | "render4" =>
+    -- as `render3`, scenarios in groups of FIVE arguments: tags | keyword | name | steps | examples blocks
+    -- (Spec/Render4.lean, Props/C03Roundtrip4.lean)
+    match MState.init D (arg as 0), findDialect D (arg as 0) with
+    | some _, some d =>
+      let rec scs4 : List (List Nat) → List (List Str × Str × Str × List (Str × Str × List (List Str)) × List (List Str × Str × Str × List (List Str)))
+        | t :: k :: n :: st :: ex :: rest =>
+          (split0 t, k, n, decSteps (st.length + 1) (split0 st), decExamples (ex.length + 1) (split0 ex)) :: scs4 rest
+        | _ => []
+      let bg := match split0 (arg as 4) with
+        | k :: n :: rest => [(k, n, decSteps (rest.length + 1) rest)]
+        | _ => []
+      let m := Spec.MFeature4.ofLists (split0 (arg as 1)) (arg as 2) (arg as 3) bg (scs4 (as.drop 5))
+      .obj [("wf", .bool (Spec.WF4 d m)), ("text", .str (Spec.render4 m)),
+            ("expected", (Spec.expectedDoc4 d (arg as 0) m 0).toJ), ("idsAfter", .num (Spec.idsAfter4 m 0))]
     | _, _ => .obj [("crash", .str (lit "no such dialect"))]
   | "recoverok" =>
     -- default dialect | src' : the 0-based positions k such that line k+1 of src' is an unexpected line to which
